@@ -146,6 +146,7 @@ func runE2E(total int, rejectPage int) (*Case, error) {
 	posIdx := map[string]int{"": 0}
 	staleFields := ""
 	page := 0
+rounds:
 	for delivered := 0; delivered < total; {
 		// the worker arrives in Query (after a sleep if the previous round failed)
 		var call *wcall
@@ -155,7 +156,8 @@ func runE2E(total int, rejectPage int) (*Case, error) {
 				wctx.open(g)
 			case call = <-cl.arrive:
 			case <-time.After(waitDeadline):
-				return nil, fmt.Errorf("e2e: worker stuck before a query")
+				o.fail("e2e-worker-stuck", fmt.Sprintf("the worker did not send its next request within %v (%d of %d events delivered; last hand-over %d)", waitDeadline, delivered, total, page))
+				break rounds
 			}
 		}
 		evs = append(evs, "EBegin")
@@ -169,18 +171,21 @@ func runE2E(total int, rejectPage int) (*Case, error) {
 		close(call.goAhead)
 		r := <-call.result
 		if r.err != nil || r.serr != nil {
-			return nil, fmt.Errorf("e2e query: %v %v", r.err, r.serr)
+			o.fail("e2e-request-refused-by-the-server", fmt.Sprintf("the real server refused the worker's request at position %d: %v %v", idx, r.err, r.serr))
+			break rounds
 		}
 		evs = append(evs, GApp("EQueryRet", GApp("QOk", GNat(r.n))))
 		if r.n == 0 {
-			return nil, fmt.Errorf("e2e: server returned no events at position %d of %d", idx, total)
+			o.fail("e2e-request-returns-nothing", fmt.Sprintf("the real server returned no events for the worker's request at position %d of %d", idx, total))
+			break rounds
 		}
 		posIdx[r.next] = idx + r.n
 		var s *scall
 		select {
 		case s = <-sk.arrive:
 		case <-time.After(waitDeadline):
-			return nil, fmt.Errorf("e2e: worker stuck before the sink")
+			o.fail("e2e-worker-stuck", fmt.Sprintf("the worker got %d events at position %d and did not hand them to the sink within %v", r.n, idx, waitDeadline))
+			break rounds
 		}
 		page++
 		accept := page != rejectPage
@@ -205,7 +210,8 @@ func runE2E(total int, rejectPage int) (*Case, error) {
 				select {
 				case next = <-cl.arrive:
 				case <-time.After(waitDeadline):
-					return nil, fmt.Errorf("e2e: worker stuck after a commit")
+					o.fail("e2e-worker-stuck", fmt.Sprintf("the sink accepted the batch at position %d and the worker did not come back with its next request within %v", idx, waitDeadline))
+					break rounds
 				}
 			}
 			p, okp := posIdx[h.Position()]
@@ -220,7 +226,9 @@ func runE2E(total int, rejectPage int) (*Case, error) {
 			}
 		}
 	}
-	o.finish()
+	if o.viol == nil {
+		o.finish()
+	}
 	if o.viol == nil && staleFields != "" {
 		o.fail("retried-batch-carries-stale-fields-from-server", staleFields)
 	}
